@@ -291,5 +291,13 @@ class P8PNGFormatter(BaseFormatter):
 
         new_rows = get_pngdata_from_picodata(picodata, img_data, attrs)
 
-        wr = png.Writer(width, height, **attrs)
+        # (The reader reports a pHYs chunk of the label image as "physical",
+        # which the writer takes as three separate arguments.)
+        writer_attrs = dict(attrs)
+        physical = writer_attrs.pop('physical', None)
+        if physical is not None:
+            writer_attrs['x_pixels_per_unit'] = physical.x
+            writer_attrs['y_pixels_per_unit'] = physical.y
+            writer_attrs['unit_is_meter'] = physical.unit_is_meter
+        wr = png.Writer(width, height, **writer_attrs)
         wr.write(outstr, new_rows)
